@@ -99,6 +99,8 @@ def match_pattern(pat, sc, trace, b):
         return False
     if "user_close" in pat and not sc.get("user"):
         return False
+    if "scenario_pattern" in pat and sc.get("pattern") != pat["scenario_pattern"]:
+        return False
     if "item_kind" in pat:
         if not any(it[0] == pat["item_kind"] for c in sc["conns"] for _, it in c.get("events", [])):
             return False
@@ -132,7 +134,9 @@ ITEMS = [("text", "hi"), ("binary", b"\x00\x01"), ("frag", 1, ["a", "é"]), ("fr
          # text fragments that end inside a character (2-, 3- and 4-byte characters cut at every byte)
          ("frag", 1, [b"\xf0\x9f\x98", b"\x80"]), ("frag", 1, [b"a\xf0", b"\x9f", b"\x98\x80\xe2\x82", b"\xacz"]),
          # the first length of the 16-bit form, as a whole frame and as a fragment
-         ("binary", bytes(range(126))), ("frag", 1, ["y" * 126, "z"])]
+         ("binary", bytes(range(126))), ("frag", 1, ["y" * 126, "z"]),
+         # every ASCII character is text (0x7f and the control characters included)
+         ("text", "a\x7fb\x00\x1f~")]
 
 
 def fam_delivery(rng, tier):
@@ -163,6 +167,27 @@ def fam_delivery(rng, tier):
             out.append({"tid": "dlv%d" % n, "conns": [{"events": events}], "run": run, "callbacks": cbs, "actions": actions,
                         "send_after_run": n % 4 == 0, "trace": n % 7 == 0, "cb_style": [None, "partial", "object"][n % 3],
                         "tls": bool(variant % 2) if tier == "thorough" else (n % 3 == 0), "horizon": 60000})
+    return out
+
+
+def fam_redirected_delivery(rng, tier):
+    """C13: the connection is reached by a redirect (ws -> ws, ws -> wss): delivery is as prompt and complete as on a direct one,
+    in particular frames that share a TLS record with an earlier one."""
+    out = []
+    n = 0
+    burst = ("burst", [("text", "b1"), ("binary", b"b2"), ("ping", b""), ("text", "b3")])
+    # TLS with an external (event-loop) dispatcher: the same bursts
+    for items in ([burst], [("text", "a"), burst, ("pong", b"po")]):
+        n += 1
+        ev = [(50, it) for it in items] + [(12000, ("close", 1000, b"done"))]
+        out.append({"tid": "rdl%d" % n, "conns": [{"events": ev}], "run": {"dispatcher": "ext"}, "tls": True, "horizon": 60000})
+    for loc in ("ws://app.test/x", "wss://app.test/x"):
+        for status in (301, 302, 307):
+            for items in ([burst], [("text", "a"), burst, ("pong", b"po")], [("frag", 1, ["p", "q"]), burst]):
+                n += 1
+                ev = [(50, it) for it in items] + [(12000, ("close", 1000, b"done"))]
+                out.append({"tid": "rdl%d" % n, "conns": [{"status": status, "location": loc}, {"events": ev}], "run": {}, "fake_tls": True,
+                            "horizon": 60000})
     return out
 
 
@@ -232,6 +257,14 @@ def fam_endings(rng, tier):
             n += 1
             out.append({"tid": "end%d" % n, "conns": [{"events": [(10, ("text", "x")), (20, ("close", 1000, reason))]} for _ in range(runs)],
                         "run": {"skip_utf8_validation": True}, "runs": runs, "horizon": 90000})
+    # a run that ends inside the connection attempt (refused / rejected) while on_error raises, both dispatchers
+    for first in ({"accept": False}, {"status": 403}):
+        for act in ("raise", "kbint"):
+            for disp in (None, "ext"):
+                n += 1
+                run = {"dispatcher": disp} if disp else {}
+                out.append({"tid": "end%d" % n, "conns": [dict(first), {"events": [(5, ("close", 1000, b""))]}], "run": run, "runs": 2,
+                            "actions": {"error": [act]}, "horizon": 90000})
     # the same object run twice with different settings: a keepalive run that ends with a ping unanswered, then a run with
     # only a ping timeout (no pings): nothing of the first run may be judged in the second
     for end1 in (("close", 1000, b"one"), ("eof",)):
@@ -320,6 +353,23 @@ def fam_reconnect(rng, tier):
                     if cbs:
                         sc["callbacks"] = cbs
                     out.append(sc)
+    # hundreds of consecutive failed attempts: the k-th retry is like the first
+    for disp in (None, "ext"):
+        n += 1
+        run = {"reconnect": 1}
+        if disp:
+            run["dispatcher"] = disp
+        out.append({"tid": "rec%d" % n, "conns": [{"accept": False}] * (450 if disp is None else 120) + [{"events": [(100, ("text", "at last")), (100, ("close", 1000, b""))]}],
+                    "run": run, "horizon": 2000000, "max_steps": 400000})
+    # a server close frame ends the run whatever its status code (1012 "service restart", 1013 "try again later" included)
+    for code in (1001, 1011, 1012, 1013, 3000, 4999):
+        for disp in (None, "ext"):
+            n += 1
+            run = {"reconnect": 2}
+            if disp:
+                run["dispatcher"] = disp
+            out.append({"tid": "rec%d" % n, "conns": [{"events": [(100, ("text", "z")), (50, ("close", code, b"bye"))]}, {"events": [(50, ("close", 1000, b""))]}],
+                        "run": run, "horizon": 200000})
     # the interval given through websocket.setReconnect() instead of the argument
     for s_ in [x for x in seqs if len(x) <= 2][:40]:
         for disp in (None, "ext"):
@@ -343,6 +393,15 @@ def fam_reconnect(rng, tier):
                 conns = ([dict(outcomes[first])] if first else []) + [{"events": [(50, ("text", "m")), (50, ("close", 1001, reason))]},
                                                                       {"events": [(50, ("close", 1000, b""))]}]
                 out.append({"tid": "rec%d" % n, "conns": conns, "run": run, "horizon": 200000})
+    # external dispatcher: a connection given up for a ping timeout whose server then drops it during the reconnect wait -
+    # one loss, one new attempt
+    for R in (3, 1):
+        for drop in ("eof", "reset"):
+            n += 1
+            conns = [{"events": [(50, ("text", "t")), (14500, (drop,))], "pong": None}, {"events": [(100, ("text", "again"))], "pong": 0},
+                     {"events": [(100, ("close", 1000, b""))]}]
+            out.append({"tid": "rec%d" % n, "conns": conns, "run": {"reconnect": R, "dispatcher": "ext", "ping_interval": 5, "ping_timeout": 2},
+                        "user": [(40000, "close")], "horizon": 200000, "pattern": "stale_drop_during_wait"})
     # user close at many points of a lossy history, including inside the reconnect wait
     base = [dict(outcomes["eof"]), dict(outcomes["refused"]), dict(outcomes["ok_long"])]
     for R in (1, 3):
@@ -415,6 +474,12 @@ def fam_keepalive(rng, tier):
                 # (the k-th ping goes out at (k + 1) * I; the partial frame follows it, nothing can follow a partial frame)
                 out.append({"tid": "ka%d" % n, "conns": [{"events": [(I * 1000 * (k + 1) + 500, ("partial", part))], "pong": {"stop_after": k, "latency": 0}}],
                             "run": {"ping_interval": I, "ping_timeout": T}, "horizon": (8 * I + 6 * T) * 1000, "pattern": "silent_mid_frame"})
+    # a peer that answers no ping but keeps sending the non-final fragments of a message that never ends
+    for I, T in ((3, 1), (5, 2)):
+        n += 1
+        ev = [(I * 1000 + 200, ("part", 1, "x", 0))] + [(300, ("part", 0, "y", 0)) for _ in range(int((8 * I + 6 * T) * 1000 / 300))]
+        out.append({"tid": "ka%d" % n, "conns": [{"events": ev, "pong": None}], "run": {"ping_interval": I, "ping_timeout": T},
+                    "horizon": (8 * I + 6 * T) * 1000, "pattern": "endless_fragments"})
     # a responsive peer whose frames arrive slowly: the two halves of a frame further apart than the timeout, between two
     # pings that are both answered at once - never reported, the message is delivered when it is complete
     for I, T in ((5, 2), (7, 3), (4, 1)):
@@ -509,7 +574,7 @@ def fam_keepalive_line_preempt(rng, tier):
     return out
 
 
-FAMILIES = {"C13": [("delivery", fam_delivery)], "C14": [("endings", fam_endings), ("line_preemption", fam_line_preempt)], "C15": [("reconnect", fam_reconnect), ("line_preemption_reconnect", lambda rng, tier: [x for x in fam_line_preempt(rng, tier) if x["tid"].startswith("lp2_")])],
+FAMILIES = {"C13": [("delivery", fam_delivery), ("redirected_delivery", fam_redirected_delivery)], "C14": [("endings", fam_endings), ("line_preemption", fam_line_preempt)], "C15": [("reconnect", fam_reconnect), ("line_preemption_reconnect", lambda rng, tier: [x for x in fam_line_preempt(rng, tier) if x["tid"].startswith("lp2_")])],
             "C16": [("keepalive", fam_keepalive), ("ping_thread_interleavings", fam_keepalive_schedules),
                     ("ping_thread_preempts_check", fam_keepalive_line_preempt)]}
 
